@@ -22,7 +22,7 @@ LEVEL_NOTE = ('Trusted: ast front-end, interpreter, the environment model (os / 
               '(the driver treats cases uniformly), torn writes inside a single write call, behaviour of the real pool implementations, the forced-new-study path, post-processing.')
 EXPLANATION = ('R18.1 from every kill point (prefix of the effect trace) the restarted study completes with exactly one result per case equal to the uninterrupted run; R18.2 from every kill point no '
                'completed case is executed again and no case twice; R18.3 uninterrupted run: one record per case carrying its own case number, grid index and result; R18.6 every combination of '
-               'per-case progress (concurrent workers); R18.7 kill, restart, kill again, restart.')
+               'per-case progress (concurrent workers); R18.7 kill, restart, kill again, restart; R18.8 cases that raised in the first call and succeeded in the restart are not executed by any further call.')
 
 
 def run(chk):
@@ -33,6 +33,7 @@ def run(chk):
     M.explore(chk, repo, thorough=chk.tier != 'quick')
     M.explore_products(chk, repo, limit=None, seed=chk.seed)
     M.explore_double(chk, repo, stride=1 if chk.tier != 'quick' else 2)
+    M.explore_repeated(chk, repo, stride=1 if chk.tier != 'quick' else 3)
     chk.assume('the cases of one study share nothing but the append-only study log; a killed process leaves the file system as it was after some write call (never inside one); '
                'np.savez leaves an unreadable file until it returns; the study function is deterministic')
-    chk.floor('R18.1', 30); chk.floor('R18.2', 30); chk.floor('R18.3', 4); chk.floor('R18.6', 2); chk.floor('R18.7', 1)
+    chk.floor('R18.1', 30); chk.floor('R18.2', 30); chk.floor('R18.3', 4); chk.floor('R18.6', 2); chk.floor('R18.7', 1); chk.floor('R18.8', 2)
